@@ -20,6 +20,7 @@ import OFV.Proofs.C01Expr
 import OFV.Proofs.C01ExprInst
 import OFV.Proofs.C01ExprMaj
 import OFV.Proofs.C01Unique
+import OFV.Proofs.C01Div
 
 namespace OFV.C01
 open OFV OFV.Spec OFV.Generated OFV.Model
@@ -229,6 +230,33 @@ theorem sub_hom (tol : Rat) (φ : Term → GQ) (A B : Op)
 /-- **`⟦c · A⟧ = c · ⟦A⟧`** (also `/`, unary `-`, which the code routes through scalar `*`). -/
 theorem smul_hom (φ : Term → GQ) (c : GQ) (A : Op) : den φ (smul c A) = c * den φ A :=
   den_smul φ c A
+
+/-- **Quotients**: `A / c` (coded as `A * (1.0 / c)`; in the Model `smul (GQ.inv c) A`) denotes the operator
+whose `c`-multiple is `⟦A⟧`, for every nonzero Gaussian-rational `c` — i.e. `⟦A / c⟧ = ⟦A⟧ / c`. -/
+theorem div_hom (φ : Term → GQ) (c : GQ) (A : Op) (hc : c ≠ 0) :
+    c * den φ (smul (GQ.inv c) A) = den φ A := by
+  rw [smul_hom, ← mul_assoc, Proofs.C01Div.mul_inv_cancel c hc, one_mul]
+
+/-- the quotient is the only such operator value: anything whose `c`-multiple is `⟦A⟧` equals `⟦A / c⟧` -/
+theorem div_hom_unique (φ : Term → GQ) (c q : GQ) (A : Op) (hc : c ≠ 0) (hq : c * q = den φ A) :
+    q = den φ (smul (GQ.inv c) A) := by
+  rw [smul_hom, ← hq, ← mul_assoc, Proofs.C01Div.inv_mul_cancel c hc, one_mul]
+
+/-- **Negation**: `⟦-A⟧ = -⟦A⟧` (coded as `-1 * A`). -/
+theorem neg_hom (φ : Term → GQ) (A : Op) : den φ (smul (-1) A) = -den φ A := by
+  rw [smul_hom]; exact neg_one_mul _
+
+/-- division by zero is the error the code raises (`ZeroDivisionError`), out of place and in place, and it
+leaves the store untouched (no result is bound) -/
+theorem div_by_zero_raises (tol : Rat) (f : Fam) (s : Store) (x y : Nat) (a : Op) (id : Nat)
+    (hy : s.val? y = some a) (hx : s.obj? x = some (id, a)) :
+    exec tol f s (.sbin x .div y 0) = .error .zeroDiv ∧ exec tol f s (.isop x .div 0) = .error .zeroDiv := by
+  constructor
+  · simp [exec, hy]
+  · simp [exec, hx]
+
+example : (⟨3, -4⟩ : GQ) * GQ.inv ⟨3, -4⟩ = 1 :=
+  Proofs.C01Div.mul_inv_cancel _ (by decide)
 
 /-- **`⟦A · B⟧` is the bilinear extension of the term product** for every class and functional:
 the double loop with dictionary accumulation (repeated result keys merged, insertion order
